@@ -388,6 +388,8 @@ def run_history(ctx: Ctx, d: DFA, other: DFA, hist, origin: str, kmax: int):
             ctx.stat(f"next:{R.kinds[q['h']][0]}")
         if q["q"] in ("SU", "FI", "SO"):
             ctx.stat(f"succ_key:{q['p'].get('keymode', 'int')}")
+            if q["p"].get("from_prev"):
+                ctx.stat("succ:starts_at_the_previous_answer")
         if q["q"] not in ("A", "OT", "WO", "IO", "SO"):
             touching += 1
         if f is not None and f != a:
@@ -458,6 +460,8 @@ def show_q(q: dict) -> str:
         return f"next(g{q['h']})"
     if k == "RW":
         return f"random_word({q['k']}, seed={q['seed']})"
+    if k in ("SU", "FI") and "call" in q["p"]:
+        return S.show_chain_step(q["p"])
     if k in ("SU", "FI"):
         return f"{'successors' if k == 'SU' else 'successor/predecessor'}({q['p']})"
     if k == "SO":
@@ -495,6 +499,13 @@ def rand_succ_query(rng, d: DFA, shape, bw, hi, kind):
     return dict(q=kind, p=p)
 
 
+def chain_queries(chain):
+    """A C14 chain (correlated successor-search calls: each starts at the word the previous one returned —
+    computed with the brute-force oracle when the history is generated — with strictness / direction / window /
+    ranking / wrapper changed in between) as atomic history queries."""
+    return [dict(q="FI" if p["call"] in ("successor", "predecessor") else "SU", p=p) for p in chain]
+
+
 def rand_history(rng, d: DFA, length: int):
     kmax = kmax_for(d)
     shape = L.language_shape(d)
@@ -505,6 +516,7 @@ def rand_history(rng, d: DFA, length: int):
     hist = []
     handles = 0
     live = []
+    orc = None
     while len(hist) < length:
         r = rng.random()
         k = rng.choice([0, 1, 2, kmax, rng.randint(0, kmax), rng.randint(0, kmax)])
@@ -547,15 +559,18 @@ def rand_history(rng, d: DFA, length: int):
                     if rng.random() < 0.7:
                         q2["p"]["reverse"] = q["p"]["reverse"] if S.in_domain(d, dict(q2["p"], reverse=q["p"]["reverse"]), shape) else q2["p"]["reverse"]
                     hist.append(q2)
-        elif r < 0.91 and can_succ:
+        elif r < 0.905 and can_succ and not shape["empty"]:
+            orc = orc or S.ChainOracle(d, shape, hi, bw)
+            hist.extend(chain_queries(S.rand_chain(rng, d, orc)))
+        elif r < 0.925 and can_succ:
             q = rand_succ_query(rng, d, shape, bw, hi, "SO")
             if q["q"] == "SO":
                 hist.append(q); live.append(handles); handles += 1
                 if rng.random() < 0.5:
                     hist.append(dict(q="NX", h=handles - 1))
-        elif r < 0.945:
+        elif r < 0.953:
             hist.append(dict(q="CLR"))
-        elif r < 0.97:
+        elif r < 0.975:
             hist.append(dict(q="GO", op=rng.choice(sorted(GRAPH_OPS))))
         else:
             hist.append(dict(q="OT", op=rng.choice(OTHER_OPS)))
@@ -649,6 +664,26 @@ def corpus():
                 dict(q="NX", h=0), dict(q="NX", h=0), dict(q="NX", h=0), dict(q="NX", h=0), dict(q="NX", h=1), dict(q="NX", h=1)]
     yield uni, [so(True, "ab"), dict(q="FINITE"), dict(q="NX", h=0), dict(q="NX", h=0), so(False, "b", max=2),
                 dict(q="GO", op="minify"), dict(q="NX", h=1), dict(q="CLR"), dict(q="NX", h=1), dict(q="NX", h=1), dict(q="NX", h=1)]
+    # correlated successor-search calls (seed C20_w3m3): `w = successor(w)` loops whose every answer is asked about
+    # again — non-strictly, strictly, in the other direction, with another window, through the generator — with
+    # key=None / one shared callable / fresh callables, other queries and clear_cache in between
+    no11 = DFA.from_substring({"0", "1"}, "11", contains=False)
+    for dd, hi_ in ((fin, None), (uni, 3), (no11, 4)):
+        orc = S.ChainOracle(dd)
+        sy_ = sorted(dd.input_symbols)
+        cp, rv = {c: i for i, c in enumerate(sy_)}, {c: -i for i, c in enumerate(sy_)}
+        for keymode, key in (("none", cp), ("shared", rv), ("none_explicit", cp), ("int", cp)):
+            for start in ("", sy_[-1]):
+                ch = chain_queries(S.walk_chain(orc, start, 0, hi_, keymode, key))
+                yield dd, ch[:24]
+                mixed = []
+                for i_, q_ in enumerate(ch[:18]):
+                    mixed.append(q_)
+                    if i_ % 5 == 2:
+                        mixed.append([dict(q="C", k=2), dict(q="CLR"), dict(q="MAX")][(i_ // 5) % 3])
+                yield dd, mixed
+        if orc.shape["finite"]:
+            yield dd, chain_queries(S.walk_chain(orc, sy_[-1] * 5, 0, hi_, "none", cp, reverse=True))[:24]
     part = DFA(states={0, 1, 2, 3}, input_symbols=ab, transitions={0: {"a": 1, "b": 2}, 1: {"a": 3}, 2: {"a": 2, "b": 2}, 3: {}},
                initial_state=0, final_states={1, 3}, allow_partial=True)
     yield part, [dict(q="GO", op="minify"), dict(q="MAX"), dict(q="GO", op="to_partial_plain"), so(True, None), dict(q="NX", h=0),
